@@ -1,4 +1,5 @@
 import Bip39V.Model.Seed
+import Bip39V.Crypto.Pbkdf2Spec
 import Bip39V.Props.Norm
 import Bip39V.Spec.Bip39
 /-! # C04 — seed derivation equals BIP39 PBKDF2-HMAC-SHA512 for every input
@@ -51,6 +52,17 @@ theorem c04_full_witness_not_streamSafe :
 example : streamSafe ([109, 110, 101, 109, 111, 110, 105, 99] ++ "TREZOR".toList.map Char.toNat) = true := by decide +kernel
 example : streamSafe (97 :: List.replicate 30 0x301) = true := by decide +kernel
 
+/-- PBKDF2-HMAC-SHA512 of RFC 8018 / RFC 2104 / FIPS 180-4 as a pure function (`Crypto/Pbkdf2Spec.lean`) -/
+def PBKDF2 : Bytes → Bytes → Nat → Nat → Bytes := Crypto.S512.pbkdf2
+
+/-- **C04 (length)**: with that PBKDF2, `MnemonicToSeed` returns exactly 64 bytes for every pair of
+strings and every normaliser -/
+theorem c04_len (X : Str → Str) (m p : Str) : (mnemonicToSeed X PBKDF2 m p).length = 64 := by
+  have hdef : mnemonicToSeed X PBKDF2 m p =
+      PBKDF2 (utf8 (X m)) (utf8 (X ([109, 110, 101, 109, 111, 110, 105, 99] ++ p))) 2048 64 := rfl
+  rw [hdef]; exact Crypto.S512.pbkdf2_length _ _ _ _
+
+#print axioms c04_len
 #print axioms c04_seed_partial
 #print axioms c04_seed_streamSafe
 #print axioms c04_constants
